@@ -404,3 +404,4 @@ def check(ctx, rep):
     metarules.singular_cache(ctx, rep, "C16.CACHE")
     shared.own_namespace_lookups(ctx, rep, "C16.NS")
     shared.unused_params(ctx, rep, "C16.PARAM", ["spec_classes.spec_class", "spec_classes.utils.naming"])
+    metarules.for_class_rule(ctx, rep, "C16.META", ("attrs",))
